@@ -90,8 +90,15 @@ def atomic_validate_publish(ctx, P, commit, rule, refusals):
     E = ctx.effects()
     acqs = [a for a in acquisitions(commit) if a[2] and a[2][1] == "transactions"]
     ctx.floor(rule, len(acqs), 1, "acquisitions of TransactionManager.transactions in commit")
-    pub = sorted({b for b in range(len(commit.blocks)) for a in E.own_acc(commit)
-                  if a.block == b and a.cell[0] == common.TXINFO and a.cell[1] == "state" and E.is_write(a)})
+    pub = {a.block for a in E.own_acc(commit) if a.cell[0] == common.TXINFO and a.cell[1] == "state" and E.is_write(a)}
+    # ... or a call to a helper of the manager that performs the state write (publication moved into a function)
+    for bi, t in commit.calls():
+        g = P.fns.get(callee_name(t))
+        if g is not None and g.id != commit.id and g.krate == commit.krate:
+            W, _ = E.closure_sets([g])
+            if any(c[0] == common.TXINFO and c[1] == "state" for c in W):
+                pub.add(bi)
+    pub = sorted(pub)
     ref = []
     for variant_owner, variant in refusals:
         ref += [bi for bi, si, rv, ln in find_aggregates(commit, variant_owner, variant)]
